@@ -543,7 +543,10 @@ func (r *shRun) queueCap() int {
 
 // flood publishes cap(sub.ch)+extra VAAs, one after the other, each with the usual deadline.  Most of them carry
 // emitter `em` (matched by the subscribers the scenario stalled), every `every`-th one carries `other` (matched by
-// the subscribers that keep reading), so that the readers' progress is visible without one line per reader per VAA.
+// the subscribers that keep reading), so that the readers' progress is visible without one line per reader per VAA;
+// from 48 VAAs before the queue capacity is reached onwards (a stalled subscriber without filters also queues the
+// `other` ones and the sentinels, so its queue overflows that much earlier) they carry `both`, which stalled subscribers and readers
+// match alike: the VAA that overflows a stalled subscriber's queue is owed to every reader, exactly once.
 func (r *shRun) flood(a map[string]interface{}) bool {
 	c := r.queueCap()
 	if c < 0 {
@@ -551,7 +554,7 @@ func (r *shRun) flood(a map[string]interface{}) bool {
 		return false
 	}
 	n := c + vhInt(a, "extra", 4)
-	em, other := vhMap(a, "em"), vhMap(a, "other")
+	em, other, both := vhMap(a, "em"), vhMap(a, "other"), vhMap(a, "both")
 	every := vhInt(a, "every", 97)
 	r.mu.Lock()
 	r.emit("FloodInfo", map[string]interface{}{"cap": c, "n": n})
@@ -563,6 +566,9 @@ func (r *shRun) flood(a map[string]interface{}) bool {
 		if i%every == 0 {
 			e = other
 		} else {
+			if len(both) > 0 && matched >= c-48 {
+				e = both // around the overflow point: VAAs that the stalled subscribers AND the readers match
+			}
 			matched++
 		}
 		if !r.publish(fmt.Sprintf("f%d", i), vhInt(e, "c", 0), vhStr(e, "a")) {
